@@ -37,7 +37,6 @@ package services
 //@   nopanic
 //@   requires s != nil && s.client != nil && req != nil && tables_wf()
 
-
 //@ func (*subscriberServer).DeleteSubscription(s, ctx, req) (resp, err)
 //@   property C16
 //@   uses tables notifyspec
@@ -80,7 +79,6 @@ package services
 //@   nopanic
 //@   requires s != nil && s.client != nil && req != nil && tables_wf()
 
-
 //@ func (*subscriberServer).CreateSnapshot(s, ctx, req) (resp, err)
 //@   property C16
 //@   uses tables notifyspec
@@ -98,7 +96,6 @@ package services
 //@   uses tables notifyspec
 //@   nopanic
 //@   requires s != nil && s.client != nil && req != nil && tables_wf()
-
 
 //@ func (*publisherServer).CreateTopic(s, ctx, req) (resp, err)
 //@   property C16
